@@ -13,7 +13,7 @@ package criteria_splitting
 //@   panics_iff [ratio_or_bounds] !(0.0 <= c.Ratio && c.Ratio <= 1.0) || c.Max < c.Min
 
 //@ func (*CriteriaSplitCondition).SplitCriteriaByOrdering
-//@   property C15 C16 C20
+//@   property C15 C16 C20 C01 C07 C09
 //@   panics_iff [pivot_out_of_range] pivot(len(*sortedCriteria), *c) < 0 || pivot(len(*sortedCriteria), *c) > len(*sortedCriteria)
 //@   ensures [left]  fresh(result) && *result.Left == (*sortedCriteria)[0:pivot(len(*sortedCriteria), *c)]
 //@   ensures [right] *result.Right == (*sortedCriteria)[pivot(len(*sortedCriteria), *c):]
@@ -36,3 +36,9 @@ package criteria_splitting
 //@             && result.Min == (decoded_has(*props, "Min") ? decoded_int(*props, "Min") : 0)
 //@             && result.Ratio == (decoded_has(*props, "Ratio") ? decoded_real(*props, "Ratio") : 0.0)
 //@   ensures [validated] 0.0 <= result.Ratio && result.Ratio <= 1.0 && result.Min <= result.Max
+
+// ---- wire format: the JSON names under which requests are read and responses are written (struct tags; encoding/json
+// itself is outside the verified code).  A renamed or omitempty field changes what a client sees without changing any Go value.
+//@ wire CriteriaSplitCondition
+//@   property C01 C15 C16 C20
+//@   json Ratio=ratio Min=min Max=max
